@@ -7,7 +7,7 @@ EXTENDS MC_Pack
 Obs == ndJsonDeserialize("mismatch.ndjson")
 
 TreeOf(o) == FromSnapshot(Seq2Set(o.tree)) @@ (Root :> D7)
-OptsOf(o) == [ign |-> o.opts.ign, deref |-> o.opts.deref, allow |-> Seq2Set(o.opts.allow)]
+OptsOf(o) == [ign |-> o.opts.ign, deref |-> o.opts.deref, allow |-> Seq2Set(o.opts.allow), allowrel |-> Seq2Set(o.opts.allowrel)]
 RtOf(o) == [st |-> o.rt.st, tree |-> SubTree(FromSnapshot(Seq2Set(o.rt.fs)), MCOut)]
 PreOf(o) == IF "pre" \in DOMAIN o THEN o.pre ELSE <<>>
 
